@@ -161,6 +161,12 @@ pub fn check_range(c: &RangeCase) -> CheckResult {
     let m = c.map();
     let r = to_espada(&m);
     vensure!(diff_maps(&m, &espada_map(&r)).is_none(), "from-iter", "HandRange::from_iter does not hold what it was given: {:?}", diff_maps(&m, &espada_map(&r)));
+    // call history: in two of three cases another range was formatted into a sink that fails
+    // after a few bytes just before (its text must not leak into this one)
+    let sel = fp_of(&(m.len(), m.keys().next().copied()));
+    if sel % 3 != 0 {
+        format_cut_short(&odd_range(), (sel >> 8) as usize % 40);
+    }
     let text = r.to_string();
     let Ok(back) = text.parse::<HandRange>() else {
         return Err(Fail::new("own-text-rejected", format!("range text {:?} is rejected by the parser", text)));
@@ -233,6 +239,9 @@ pub fn espada_token(t: &Tok, w: f32) -> HandRangeToken {
 pub fn check_token(c: &TokenCase) -> CheckResult {
     vensure!(c.tok.well_formed() && c.weight >= 0.0 && c.weight <= 1.0 && c.weight.to_bits() != (-0.0f32).to_bits(), "bad-case", "token outside the domain");
     let t = espada_token(&c.tok, c.weight);
+    if c.weight.to_bits() % 3 != 0 {
+        format_cut_short(&espada_token(&Tok::PocketSpan(3, 7), 0.8125), c.tok.well_formed() as usize + super::c05::shape_ix(&c.tok) as usize);
+    }
     let text = t.to_string();
     match text.parse::<HandRangeToken>() {
         Ok(back) => {
